@@ -340,7 +340,7 @@ package generator
 //@   ensures [C18,C08] empty-enum-fails: t.Enum != nil && len(t.Enum) == 0 ==> result1 != nil
 //@   ensures [C07,C03,C02] array-arm: t.Enum == nil && t.Ref == "" && len(t.Type) >= 1 && (t.Type[0] == "array" || (len(t.Type) == 2 && t.Type[0] == "null" && t.Type[1] == "array")) && result1 == nil
 //@       ==> dyn(result0) == "*codegen.ArrayType"
-//@   ensures [C03,C02] primitive-arm: t.Enum == nil && t.Ref == "" && len(t.Type) == 1 && (t.Type[0] == "string" || t.Type[0] == "integer") && t.Format == "" && !t.subSchemaTypeElem && result1 == nil
+//@   ensures [C03,C02] primitive-arm: t.Enum == nil && t.Ref == "" && len(t.Type) == 1 && (t.Type[0] == "string" || (t.Type[0] == "integer" && !g.config.MinSizedInts)) && t.Format == "" && !t.subSchemaTypeElem && result1 == nil
 //@       ==> dyn(result0) == "codegen.PrimitiveType" && result0.Type == (t.Type[0] == "string" ? "string" : "int")
 //@   ensures [C03,C02] nullable-primitive-is-pointer: t.Enum == nil && t.Ref == "" && len(t.Type) == 2 && t.Type[0] == "null" && t.Type[1] == "string" && !t.subSchemaTypeElem && result1 == nil
 //@       ==> dyn(result0) == "*codegen.PointerType"
